@@ -2,6 +2,10 @@
 """Prompt for a sub-agent that produces behaviour-preserving refactorings (false-alarm probes)."""
 import sys
 wt=sys.argv[1]; files=sys.argv[2:]
+emph=""
+if files and files[0].startswith("--emph="):
+    emph="\nAdditional emphasis for this batch: "+open(files[0][7:]).read().strip()+"\n"
+    files=files[1:]
 print(f"""You are helping to evaluate static-analysis checkers for the Go project jamf/regatta (an etcd-like distributed KV store). The checkers must stay SILENT on code whose behaviour is unchanged, so I need realistic BEHAVIOUR-PRESERVING refactorings to probe them for false alarms.
 
 You have your own scratch git worktree of the repository at {wt} (detached HEAD). Work ONLY inside {wt} and an output directory {wt}-out (create it). Do NOT read or touch /repo or /verif.
@@ -14,4 +18,5 @@ For EACH refactoring k in 1..12 deliver {wt}-out/n<k>/patch.diff (`git diff -- .
 
 Environment notes (IMPORTANT): the sandbox has NO network. For every shell call export these first: `export GOFLAGS=-mod=mod GOPROXY=off GOSUMDB=off GOTOOLCHAIN=local; unset GOWORK`. Go 1.23 is the default toolchain. Running go with -mod=mod may rewrite go.mod in the worktree: harmless, but do NOT include go.mod/go.sum in patch.diff. Always pass `-timeout` to go test. The package util/iter fails to link its test binary even on the pristine tree - ignore it. Do not spend more than ~8 minutes per refactoring.
 
+{emph}
 Finish with a short plain-text list: per refactoring the file/function touched and the kind of refactoring.""")
